@@ -57,6 +57,7 @@ def c04(ctx):
     _g(ctx, mask.run, candset=True)
     _g(ctx, once.run, extrema=True, pairpos=True, appends=True)
     _g(ctx, suffix.run)
+    _g(ctx, split.run)
 
 
 def c05(ctx):
